@@ -134,7 +134,7 @@ func runC03(c *c03Case, r *rng) string {
 	}
 	replies := make([]string, len(c.reqs))
 	get := func(sc *simClient) string {
-		v, err := sc.recv(4 * time.Second)
+		v, err := sc.recv(time.Duration(float64(4*time.Second) * loadFactor))
 		if err != nil {
 			return "TIMEOUT"
 		}
